@@ -13,6 +13,7 @@ import DW.Driver.Alias
 import DW.Driver.C04
 import DW.Driver.GenDump
 import DW.Driver.GenLoad
+import DW.Driver.GenEnv
 
 open Lean DW.Driver
 
@@ -35,6 +36,7 @@ def dispatch (j : Json) : Except String Json := do
   | "gendump" => handleGenDump j
   | "gendumprun" => handleGenDumpRun j
   | "genload" => handleGenLoad j
+  | "genenv" => handleGenEnv j
   | x => throw s!"unknown op {x}"
 
 def handleLine (line : String) : String :=
